@@ -14,6 +14,7 @@ RgnSD(s, r, k) == Bit(s.sys[DRSRn[r + 1]], 8 + k)
 RgnBase(s, r)  == s.sys[DRBARn[r + 1]]
 RgnAP(s, r)    == Slice(s.sys[DRACRn[r + 1]], 10, 8)
 RgnTEXCB(s, r) == Slice(s.sys[DRACRn[r + 1]], 5, 3) * 4 + Bit(s.sys[DRACRn[r + 1]], 1) * 2 + Bit(s.sys[DRACRn[r + 1]], 0)
+RgnS(s, r)     == Bit(s.sys[DRACRn[r + 1]], 2)
 
 \* does enabled region r cover va (base/size match and sub-region not disabled)?
 RegionHits(s, r, va) ==
@@ -61,20 +62,22 @@ APAllows(ap, priv, iswrite) ==
 
 DeviceLike(texcb) == texcb \in {0, 1, 8}
 
-\* -> [x |-> context (x.ab set when the access faults), pa |-> physical address]
+\* -> [x |-> context (x.ab set when the access faults), pa |-> physical address, at |-> memory attributes
+\*     (MkAttr record) of the returned address descriptor; paddress.NS is IMPLEMENTATION DEFINED in PMSA]
 TranslateP(x, va, priv, iswrite, wasaligned) ==
   LET s == x.s IN
-  IF SCTLR_M(s) = 0 THEN [x |-> x, pa |-> va]
+  IF SCTLR_M(s) = 0 THEN [x |-> x, pa |-> va, at |-> DefaultMemoryAttributes(s, va)]
   ELSE LET r   == LoopResult(s, va)
            anyUnp == \E q \in 0..(DRegion(s) - 1) : RegionUnpred(s, q)
            x1  == UnpredIf(x, anyUnp)
        IN IF r = -1
           THEN IF SCTLR_BR(s) = 0 \/ ~priv
-               THEN [x |-> DataAbortP(x1, va, iswrite, "BACKGROUND"), pa |-> va]
-               ELSE [x |-> x1, pa |-> va]                   \* default map, AP = 011
+               THEN [x |-> DataAbortP(x1, va, iswrite, "BACKGROUND"), pa |-> va, at |-> AttrUnknown]
+               ELSE [x |-> x1, pa |-> va, at |-> DefaultMemoryAttributes(s, va)]                   \* default map, AP = 011
           ELSE LET ap == RgnAP(s, r)
-                   x2 == UnpredIf(x1, ap \in {4, 7} \/ ((~wasaligned) /\ DeviceLike(RgnTEXCB(s, r))))
+                   x2 == UnpredIf(x1, ap \in {4, 7} \/ ((~wasaligned) /\ DeviceLike(RgnTEXCB(s, r))) \/ TEXCBReserved(RgnTEXCB(s, r)))
+                   at == DefaultTEXDecode(RgnTEXCB(s, r), RgnS(s, r))
                IN IF PermAbort(ap, priv, iswrite)
-                  THEN [x |-> DataAbortP(x2, va, iswrite, "PERMISSION"), pa |-> va]
-                  ELSE [x |-> x2, pa |-> va]
+                  THEN [x |-> DataAbortP(x2, va, iswrite, "PERMISSION"), pa |-> va, at |-> at]
+                  ELSE [x |-> x2, pa |-> va, at |-> at]
 =============================================================================
